@@ -248,6 +248,12 @@ def compare_text(res, docs, charset=None, stats=None):
                 as_written = counts_as_written(a)
                 if not as_written:
                     stats['count_rewritten'] = stats.get('count_rewritten', 0) + 1
+                    ca, cb = canon_segs(a), canon_segs(b)
+                    k = next((j for j in range(min(len(ca), len(cb))) if ca[j] != cb[j]), None)
+                    if k is not None and ca[k][0] in ('SE', 'GE', 'IEA'):
+                        res.violation('pred:text-count-rewritten', '%s: an accepted source writes the count %r; after X12->XML->X12 it is %r '
+                                      '(X12Writer discards every supplied trailer and prints its own)' % (label, ca[k], cb[k]),
+                                      {'call': 'x12n_document(...fd_xmldoc); xmlx12_simple.convert', 'text': text, 'key': 'pred:text-count-rewritten'})
                 a, b = canon_segs(a, not as_written), canon_segs(b, not as_written)
             except Exception as e:
                 a, b = None, 'unreadable: %s' % type(e).__name__
